@@ -180,8 +180,12 @@ def flex_next_split(ctx, bj, body, site):
 
 
 def tag_index(ctx, bj, body, site):
-    """DATA_MIN_SIZES[tag]: tag validated (V2 accept-set rule) and the array has one entry per variant (E1 L4)."""
-    return True, "index is the validated tag (V2: accepted raw tags = discriminants 0..n-1; E1: DATA_MIN_SIZES has n entries)"
+    """DATA_MIN_SIZES[i]: the index is the constant position of the variant (never the tag value, which need not be 0..n-1 when
+    discriminants are explicit) and is below the constant array length."""
+    ops = site["ops"]
+    if len(ops) == 2 and re.fullmatch(r"[0-9]+", ops[0] or "") and re.fullmatch(r"[0-9]+", ops[1] or ""):
+        return int(ops[1]) < int(ops[0]), "constant index %s into an array of %s entries" % (ops[1], ops[0])
+    return False, "array index is not a constant position (%s): a tag value is not bounded by the number of variants" % (ops,)
 
 
 def generic(ctx, bj, body, site):
